@@ -501,7 +501,7 @@ def main(ctx, args):
         if d.startswith(("run", "shrink")):
             shutil.rmtree(os.path.join(WORK, d), ignore_errors=True)
     extract(ctx)        # a changed source shape is reported; the correspondences below still run and search for a concrete input
-    proved = prove(ctx, MODULES, drivers=["drv_c18", "drv_prog"])
+    proved = prove(ctx, MODULES, drivers=["drv_c18", "drv_prog", "drv_mir"])
     if proved and ctx.tier == "thorough":
         proved = leancheck(ctx, MODULES)
     if not build_harness(ctx):
@@ -558,6 +558,22 @@ def main(ctx, args):
             f = l.split("\t")
             if len(f) >= 2:
                 model[f[0]] = f[1]
+    # fourth opinion: the Lean MIR semantics on the MIR the generator consumed; and the hypotheses of C18_cfg_run_is_mir_run
+    # (`encode` of the control skeleton WITH the operand checks is defined, the skeleton is forward and nested) on every function
+    mirres = {c["id"]: [res[c["id"]]["vm"], None, model.get(c["id"]), None] for c in cases}
+    pc.mir_run(cases, mirres)
+    mir = {i: v[3] for i, v in mirres.items()}
+    mstatic = pc.mir_static(cases)
+    mir_matrix, mir_hyp = collections.Counter(), collections.Counter()
+    mir_hyp_bad = []
+    for c in cases:
+        st = mstatic.get(c["id"], {"status": "missing"})
+        if st["status"] == "ok":
+            mir_hyp["functions"] += st["fns"]
+            mir_hyp["skeleton_encodable"] += st["enc"]
+            mir_hyp["skeleton_forward_and_nested"] += st["fwdnested"]
+            if res[c["id"]]["emit"] == "ok" and (st["enc"] != st["fns"] or st["fwdnested"] != st["fns"]):
+                mir_hyp_bad.append((c, st))
     # (b) dispatch loop of every emitted function
     cfg_lines, cfg_meta = [], []
     for c in cases:
@@ -616,6 +632,12 @@ def main(ctx, args):
         stats["evaluations"] += 1
         stats["emit_" + o["emit"]] += 1
         v = judge(o, model.get(c["id"]))
+        mr = mir.get(c["id"])
+        if o["emit"] == "ok" and o["rust"].startswith("ok") and o["vm"].startswith("ok"):
+            if mr is None or not mr.startswith("ok"):
+                mir_matrix["mir:" + str(mr).split(" ")[0]] += 1
+            else:
+                mir_matrix["mir" + ("=rust" if mr == o["rust"] else "!rust") + ("=vm" if mr == pc.norm_impl(o["vm"]) else "!vm")] += 1
         if "known" in c:
             k = c["known"]
             if v and v[0] == "violation":
@@ -648,7 +670,10 @@ def main(ctx, args):
         c, why, o = failures[0]
         rep = {"src": c["src"], "sx": c.get("sx"), "inputs": c["inputs"], "times": c["times"], "why": why, "vm": o["vm"][:1500], "rust": o["rust"][:1500],
                "model": (model.get(c["id"]) or "")[:1500], "emit": o["emit"], "emit_msg": o["msg"][:500], "failing_cases": len(failures), "case_id": c["id"],
-               "rustc_stderr": o.get("rustc_stderr", "")[:1500]}
+               "rustc_stderr": o.get("rustc_stderr", "")[:1500], "mir_run": (mir.get(c["id"]) or "")[:1500],
+               "localised_by_mir_run": ("rustgen / template (the MIR run agrees with the VM)" if mir.get(c["id"]) == pc.norm_impl(o["vm"]) else
+                                        "bytecodegen / VM (the MIR run agrees with the generated Rust)" if mir.get(c["id"]) == o["rust"] else
+                                        "unclear: MIR run " + str(mir.get(c["id"]))[:80])}
         if "prog" in c and not mutate:
             kind = why.split(":")[0][:40]
 
@@ -684,6 +709,12 @@ def main(ctx, args):
         what = enc_bad[0].get("note") or "dispatch loop of the generated text differs from Model/RustGen.lean `encode` of the MIR control skeleton"
         ctx.violation(f"{what} — {len(enc_bad)} functions (first: {enc_bad[0]['function']} of\n{enc_bad[0]['src']})",
                       dict(enc_bad[0], stage="encode", correspondence="emitted dispatch loop vs encode", cases=len(enc_bad)), found_input=False)
+    if mir_hyp_bad and not failures:
+        mir_hyp_bad.sort(key=lambda x: len(x[0]["src"]))
+        c, st = mir_hyp_bad[0]
+        ctx.violation(f"a function of an emitted program does not satisfy the hypotheses of C18_cfg_run_is_mir_run / C18_dispatch_loop_terminates "
+                      f"(encodable {st['enc']}/{st['fns']}, forward+nested {st['fwdnested']}/{st['fns']}; {len(mir_hyp_bad)} programs); first:\n{c['src']}",
+                      {"src": c["src"], "stage": "encode", "static": st, "correspondence": "Mir.Fn.cfg vs RustGen.encode"}, found_input=False)
     if not proved and not failures:
         ctx.violation("proof obligation broken: " + "; ".join(ctx._broken), {"stage": "prove", "theorems": ctx._broken,
                       "lake": getattr(ctx, "_lake_errors", "")}, found_input=False)
@@ -697,6 +728,9 @@ def main(ctx, args):
         "traces_validated_against_impl": stats["scaffold_traces"],
         "programs": stats["emit_ok"],
         "disagreements_checked": len(failures),
+        "mir_semantics_fourth_opinion": {"what": "the Lean MIR semantics (Model/Mir.lean) on the dump of the MIR rustgen consumed, per emitted and running "
+                                                 "program against the generated Rust and the VM (bitwise)", "cells": dict(mir_matrix),
+                                         "hypotheses_of_C18_cfg_run_is_mir_run": dict(mir_hyp), "programs_violating_them": len(mir_hyp_bad)},
         "program_outcomes": {k: stats[k] for k in ("emit_ok", "emit_err", "emit_panic", "agree_with_vm", "agree_with_model", "vm_and_rust_differ_from_model", "refused_and_vm_rejects")},
         "refused_but_vm_runs": [{"src": c["src"][:300], "msg": m} for c, m in refused[:8]],
         "refused_but_vm_runs_count": len(refused),
